@@ -577,8 +577,9 @@ func c17SessDropProg(s *c17Session, p int) *c17Session {
 }
 
 func c17ShrinkSession(e *Env, s *c17Session) *c17Session {
+	shrinkUntil := time.Now().Add(40 * time.Second) // a budget for the whole shrink (see c17Report)
 	fails := func(t *c17Session) bool {
-		if t == nil || len(t.ops) == 0 {
+		if t == nil || len(t.ops) == 0 || time.Now().After(shrinkUntil) {
 			return false
 		}
 		w := c17RunSession(e, t, false)
